@@ -60,26 +60,81 @@ class _GNode:
         self.depth = 0
 
 
-def _gen_adapter(rng, uid, allow_prefix=True):
+def _gen_auth_adapter(rng):
+    # small pools: same login with another password, tokens without description etc. do occur
+    kind = rng.choice(["bauth", "bauth", "token", "client"])
+    if kind == "bauth":
+        return {"a": "auth", "kind": kind, "login": rng.choice(["user", "root"]), "password": rng.choice(["pw1", "pw2", "p:w"])}
+    if kind == "token":
+        return {"a": "auth", "kind": kind, "token": rng.choice(["tokA", "tokB", "a.b.c"]),
+                "token_descr": rng.choice([None, None, "descr"])}
+    return {"a": "auth", "kind": kind, "client_name": rng.choice(["cl", "cl2"]), "client_id": rng.choice(["cid", "c/id"]),
+            "client_secret": rng.choice(["s3cr3t", "other"])}
+
+
+def _gen_adapter(rng, uid, allow_prefix=True, allow_auth=False):
     r = rng.random()
-    if r < 0.45:
-        return {"a": "hdr", "name": f"X-Ad-{uid}", "value": f"v{uid}"}
-    if r < 0.8 or not allow_prefix:
-        return {"a": "wrap", "tag": f"w{uid}"}
-    return {"a": "prefix", "prefix": rng.choice(PREFIXES)}
+    if allow_auth and r < 0.25:
+        return _gen_auth_adapter(rng)
+    nd = rng.random() < 0.3
+    if r < 0.5:
+        a = {"a": "hdr", "name": f"X-Ad-{uid}", "value": f"v{uid}"}
+    elif r < 0.8 or not allow_prefix:
+        a = {"a": "wrap", "tag": f"w{uid}"}
+    else:
+        return {"a": "prefix", "prefix": rng.choice(PREFIXES)}
+    if nd:
+        a["nodescr"] = True
+    return a
 
 
-def _gen_adapters_arg(rng, uid):
+def _gen_adapters_arg(rng, uid, allow_auth=False):
     r = rng.random()
     if r < 0.2:
         return None
     if r < 0.5:
-        return _gen_adapter(rng, f"{uid}a")
+        return _gen_adapter(rng, f"{uid}a", allow_auth=allow_auth)
     n = rng.choice([0, 1, 2, 2, 3])
-    items = [_gen_adapter(rng, f"{uid}{'abc'[i]}") for i in range(n)]
+    items = []
+    for i in range(n):
+        a = _gen_adapter(rng, f"{uid}{'abc'[i]}", allow_auth=allow_auth)
+        if a["a"] == "auth":
+            allow_auth = False          # at most one authenticating layer per chain
+        items.append(a)
     # tuples are not generated: the docstrings of HttpConn / clone promise "a list of adapters
     # or a single adapter" only (a tuple passes the isinstance test but fails on list + tuple)
     return {"list": items}
+
+
+def _sibling_spec(rng, spec, uid):
+    """same shape (kinds, description-relevant fields), other behaviour: what a cache keyed too coarsely confuses"""
+    def mut(a, i):
+        a = dict(a)
+        if a["a"] == "hdr":
+            a["name"], a["value"] = f"X-Ad-{uid}{i}", f"v{uid}{i}"
+        elif a["a"] == "wrap":
+            a["tag"] = f"w{uid}{i}"
+        elif a["a"] == "auth":
+            if a["kind"] == "bauth":
+                a["password"] = a["password"] + "-other"
+            elif a["kind"] == "token":
+                a["token"] = a["token"] + "-other"
+            else:
+                a["client_secret"] = a["client_secret"] + "-other"
+                a["client_id"] = a["client_id"] + "2"
+        return a
+    if spec is None:
+        return None
+    if "list" in spec:
+        return {"list": [mut(a, i) for i, a in enumerate(spec["list"])]}
+    return mut(spec, 0)
+
+
+def _has_auth(spec):
+    if spec is None:
+        return False
+    items = spec.get("list") or ([spec] if "a" in spec else [])
+    return any(a["a"] == "auth" for a in items)
 
 
 def _n_adapters(spec):
@@ -136,6 +191,8 @@ def gen_request(rng, k, node, nid, fault_rate, kinds):
 def generate(rng, tier):
     ops = []
     nodes = []
+    clone_specs = {}
+    derive_specs = {}
     k = [0]
 
     def uid():
@@ -178,8 +235,14 @@ def generate(rng, tier):
             g = _GNode(kind, pn.auth, pn.impl, has_prefix=pn.has_prefix, born=len(ops))
             g.depth = pn.depth + 1
             if kind == "http":
-                op["adapters"] = _gen_adapters_arg(rng, f"n{nid}")
+                prevd = derive_specs.get(p)
+                if prevd is not None and rng.random() < 0.35:
+                    op["adapters"] = _sibling_spec(rng, prevd, f"n{nid}")
+                else:
+                    op["adapters"] = _gen_adapters_arg(rng, f"n{nid}", allow_auth=not pn.auth)
+                derive_specs[p] = op["adapters"]
                 g.depth = pn.depth + _n_adapters(op["adapters"])
+                g.auth = pn.auth or _has_auth(op["adapters"])
                 g.has_prefix = pn.has_prefix or _has_prefix(op["adapters"])
             elif kind == "bauth":
                 op["login"], op["password"] = rng.choice([("user", "pw"), ("uü", "p:w:"), ("a b", "")])
@@ -212,11 +275,17 @@ def generate(rng, tier):
             ops.append(op)
             bias_old = rng.randint(1, 3)
         elif r < 0.42 and mcs and len(nodes) < 12:
-            s = rng.choice(mcs)
+            cloned_before = [x for x in mcs if x in clone_specs]
+            s = rng.choice(cloned_before) if cloned_before and rng.random() < 0.5 else rng.choice(mcs)
             sn = nodes[s]
             nid = len(nodes)
-            spec = _gen_adapters_arg(rng, f"c{nid}")
-            g = _GNode("mcaller", sn.auth, sn.impl, is_mc=True, born=len(ops))
+            prev = clone_specs.get(s)
+            if prev is not None and rng.random() < 0.5:
+                spec = _sibling_spec(rng, prev, f"c{nid}")
+            else:
+                spec = _gen_adapters_arg(rng, f"c{nid}", allow_auth=not sn.auth)
+            clone_specs[s] = spec
+            g = _GNode("mcaller", sn.auth or _has_auth(spec), sn.impl, is_mc=True, born=len(ops))
             g.methods = set(sn.methods)
             g.depth = sn.depth + _n_adapters(spec)
             sn.dependents += 1
@@ -328,6 +397,10 @@ class World:
                     return False
                 parent = self.objs[op["parent"]]
                 if k2 == "http":
+                    own = adapters_entries(op.get("adapters"))
+                    n_auth = sum(1 for e in own if e[0] == "auth")
+                    if n_auth > 1 or (n_auth and m.nodes[op["parent"]].has_auth):
+                        return False        # two authenticating layers: the code asserts, not generated
                     arg, _ = self.mk_adapters_arg(op.get("adapters"))
                     if arg is None and op["node"] % 2 == 0:
                         o = self.sut("HttpConn(parent)", ch.HttpConn, parent)
@@ -357,6 +430,10 @@ class World:
             if op["src"] not in self.objs or not m.nodes[op["src"]].is_mc:
                 return False
             src = self.objs[op["src"]]
+            own = adapters_entries(op.get("adapters"))
+            n_auth = sum(1 for e in own if e[0] == "auth")
+            if n_auth > 1 or (n_auth and m.nodes[op["src"]].has_auth):
+                return False
             arg, _ = self.mk_adapters_arg(op.get("adapters"))
             if arg is None and nid % 2 == 0:
                 o = self.sut("clone()", src.clone)
